@@ -20,7 +20,7 @@ EXPLANATION = (
     "_symbolic_mapping handles every fusable class with a non-identity mapping in a non-identity branch, and "
     "FusedBlockwise._task derives every inner block id through expr._input_block_id; R02.4 (REF) the decline guards of "
     "Blockwise._is_blockwise_fusable (concatenate, Delayed operand, contracted multi-block dimension), of the conflict "
-    "detector and of all 162 declining exits of the rewrite hooks (_accept_*, _simplify_*, _pushdown*, _lower, pushdown "
+    "detector and of all 163 declining exits of the rewrite hooks (_accept_*, _simplify_*, _pushdown*, _lower, pushdown "
     "gates) are structurally unchanged; R02.5 FusedBlockwise.dependencies = inner dependencies minus fused names; "
     "R02.8 sibling agreement among the five rewrites that rebuild an Elemwise around transformed inputs: the optional array operands where/out "
     "are transformed with the inputs; R02.9 every operand loop of a Blockwise-family slice pushdown consults the operand's own extent (broadcast "
@@ -418,9 +418,13 @@ def _closure_nodes(expr, func_node, defs, limit=6):
     return out
 
 
+OPERAND_TRANSFORMS = frozenset({"Shuffle", "Transpose", "Rechunk"})
+
+
 def _operand_loops(f):
-    """``for`` loops of ``f`` that slice a loop-bound operand: the body contains ``new_collection(<X>)[...]`` with X
-    assigned inside the loop (target or body).  Returns [(loop, X, subscript)]."""
+    """``for`` loops of ``f`` that transform a loop-bound operand: the body contains ``new_collection(<X>)[...]``,
+    ``Shuffle(<X>, ...)`` / ``Transpose(<X>, ...)`` / ``Rechunk(<X>, ...)`` or ``<X>.rechunk(...)`` with X assigned
+    inside the loop (target or body).  Returns [(loop, X, transforming node)]."""
     out = []
     for loop in body_walk(f.node):
         if not isinstance(loop, ast.For):
@@ -431,8 +435,14 @@ def _operand_loops(f):
                 for t in st.targets:
                     bound |= {n.id for n in ast.walk(t) if isinstance(n, ast.Name)}
         for n in ast.walk(loop):
+            a = None
             if isinstance(n, ast.Subscript) and isinstance(n.value, ast.Call) and (dotted(n.value.func) or "").endswith("new_collection") and n.value.args:
                 a = n.value.args[0]
+            elif isinstance(n, ast.Call) and (dotted(n.func) or "").rsplit(".", 1)[-1] in OPERAND_TRANSFORMS and n.args:
+                a = n.args[0]  # Shuffle(X, indexer, axis, ...) / Transpose(X, axes) / Rechunk(X, ...)
+            elif isinstance(n, ast.Call) and isinstance(n.func, ast.Attribute) and n.func.attr == "rechunk":
+                a = n.func.value
+            if a is not None:
                 if isinstance(a, ast.Name) and a.id in bound:
                     # innermost enclosing loop only
                     inner = [l2 for l2 in ast.walk(loop) if isinstance(l2, ast.For) and l2 is not loop and any(x is n for x in ast.walk(l2))]
@@ -446,7 +456,7 @@ def _blockwise_family_slice_hooks(repo):
     seen = set()
     for c in [base] + list(repo.subclasses(base, strict=True)):
         for name, f in c.methods.items():
-            if name.startswith("_accept_slice") and f.fq not in seen:
+            if name.startswith(("_accept_slice", "_accept_shuffle", "_accept_rechunk")) and f.fq not in seen:
                 seen.add(f.fq)
                 yield c, f
 
@@ -454,10 +464,10 @@ def _blockwise_family_slice_hooks(repo):
 def r02_9(ctx):
     rr = RuleResult(
         "R02.9", "GUARD",
-        "one-sided handling / sibling agreement in the Blockwise family's slice pushdowns: a loop that derives each operand's selection from the "
-        "output's selection consults the operand's own extent on that axis (a size-1 axis broadcast against a longer output axis must not take "
-        "the output's slice)",
-        min_instances=3,
+        "one-sided handling / sibling agreement in the Blockwise family's slice and shuffle pushdowns: a loop that derives each operand's "
+        "selection / shuffle from the output's consults the operand's own extent on that axis (a size-1 axis broadcast against a longer output "
+        "axis must not take the output's slice or indexer)",
+        min_instances=4,
     )
     from ..dataflow import Defs
 
@@ -560,7 +570,7 @@ RULES = [r02_1, r02_2, r02_3, r02_4, r02_5, r02_6, r02_7, r02_8, r02_9, r02_10]
 LEVEL_TEXT = (
     "Static decision of sentence 3 of C02 (fusion preserves the output-block -> input-block mapping) as sibling agreement "
     "between _task and _input_block_id over all fusable classes, exhaustiveness of the symbolic conflict detector over the "
-    "class hierarchy, and the derivation of inner block ids; plus a REF inventory (162 structural fingerprints) of every "
+    "class hierarchy, and the derivation of inner block ids; plus a REF inventory (163 structural fingerprints) of every "
     "condition under which a rewrite hook, the fusability test or the conflict detector declines, so that a weakened "
     "decline is reported at its hook. Value preservation by each fired rewrite (sentences 1-2) is not decided."
 )
